@@ -659,6 +659,13 @@ def _classify(scope, ff, fn, node, t):
         if isinstance(r, ast.Name) and r.id in t:
             return ("div", ["ZeroDivisionError"], r, norm(node)[:90])
         return None
+    if isinstance(node, ast.Assign) and len(node.targets) == 1 and \
+            isinstance(node.targets[0], (ast.Tuple, ast.List)) and \
+            isinstance(node.value, ast.Attribute) and node.value.attr == "shape" \
+            and isinstance(node.value.value, ast.Name) and \
+            node.value.value.id in ff.array_names:
+        # rank of an array built from untrusted bytes is not known
+        return ("shape-unpack", ["ValueError"], None, norm(node)[:90])
     if isinstance(node, ast.Assert) and scope.expr_tainted(fn, node.test):
         # asserts over array *contents* are not modelled; only scalar names
         nm = [n for n in names_in(node.test) if n in t]
